@@ -1,0 +1,9 @@
+//go:build verif
+
+package builder
+
+// VerifHashSlice exposes hashBits.Slice for an exhaustive (offset, width)
+// sweep (build tag "verif" only; see /verif/DESIGN.md).
+func VerifHashSlice(b []byte, offset, width int) (int, error) {
+	return hashBits(b).Slice(offset, width)
+}
